@@ -111,6 +111,15 @@ def rnd_library(rng, dirpath, with_uq=False):
     k = rng.randint(3, 10)
     names = rng.sample(SYN_NAMES, k)
     groups = {n: rnd_corr(rng) for n in names}
+    # look-alikes: another entry with the same reference values and the same Cp temperatures but other Cp values
+    # (two correlations are the same datum only if ALL their data agree)
+    for n in list(names)[:2]:
+        g = groups[n]
+        spare = [x for x in SYN_NAMES if x not in names]
+        if g['Ts'] and spare and rng.random() < 0.6:
+            n2 = spare[0]
+            names = list(names) + [n2]
+            groups[n2] = dict(g, Cps=[round(c + rng.choice([0.5, -0.75, 2.0]), 6) for c in g['Cps']])
     descr = {n: rnd_corr(rng) for n in rng.sample(SYN_DESCR, rng.randint(0, 2))}
     empty = [n for n in SYN_NAMES if n not in names][:rng.randint(0, 2)]
     uq = None
